@@ -209,10 +209,52 @@ def m_isinstance(E, a, kw):
     raise Unsupported('isinstance(_, %r)' % (t,))
 
 
+@model('getattr')
+def m_getattr(E, a, kw):
+    v, name = a[0], a[1]
+    nm = conc_str(name)
+    if nm is None:
+        raise Unsupported('getattr with a symbolic name')
+    if len(a) > 2:
+        if not bool_lit(m_hasattr(E, [v, name], {}).t):
+            return a[2]
+    return E.getattr_value(v, nm)
+
+
+@model('tuple')
+def m_tuple(E, a, kw):
+    if not a:
+        return VTuple([])
+    return VTuple(E.iter_items(a[0]))
+
+
+@model('set')
+def m_set(E, a, kw):
+    """sets are only used for membership tests in cardutil-sized code: an immutable tuple of the distinct concrete members"""
+    if not a:
+        return VTuple([])
+    items = E.iter_items(a[0])
+    out, seen = [], set()
+    for it in items:
+        k = conc_str(it) if isinstance(it, VSeq) else (it.conc() if isinstance(it, VInt) else None)
+        if k is None:
+            raise Unsupported('set() of symbolic members')
+        if k not in seen:
+            seen.add(k)
+            out.append(it)
+    return VTuple(out)
+
+
+MODELS['frozenset'] = m_set
+
+
 @model('hasattr')
 def m_hasattr(E, a, kw):
     v, name = a
     nm = conc_str(name)
+    if isinstance(v, VRef) and E.kind_of(v) not in ('obj', 'exc'):
+        k = E.kind_of(v)
+        return VBool((k, nm) in METHOD_MODELS or nm in E.cell(v))
     if isinstance(v, VRef) and E.kind_of(v) in ('obj', 'exc'):
         c = E.cell(v)
         if nm in c:
@@ -223,7 +265,7 @@ def m_hasattr(E, a, kw):
         if E.program.find_class_attr(ci, nm)[1] is not None:
             return VBool(True)
         if E.program.find_method(ci, '__getattr__') is not None:
-            raise Unsupported('hasattr through __getattr__')
+            return VBool(True)          # a catch-all __getattr__ answers every name (cardutil's return None for unknown ones)
         return VBool(False)
     raise Unsupported('hasattr on %r' % (v,))
 
@@ -287,16 +329,18 @@ def m_cycle(E, a, kw):
     c = sq.clen()
     if c is None or c == 0:
         raise Unsupported('cycle of symbolic/empty sequence')
-    return E.new_cell({'__kind__': 'cycle', 'seq': sq, 'period': c})
+    return E.new_cell({'__kind__': 'cycle', 'seq': sq, 'period': c, 'pos': VInt(0)})
 
 
 @model('zip')
 def m_zip(E, a, kw):
     seqs = []
     n = None
+    cycles = []
     for x in a:
         if isinstance(x, VRef) and E.kind_of(x) == 'cycle':
-            seqs.append(('cycle', E.getf(x, 'seq'), E.getf(x, 'period')))
+            seqs.append(('cycle', E.getf(x, 'seq'), (E.getf(x, 'period'), E.as_int(E.getf(x, 'pos')))))
+            cycles.append(x)
         else:
             sq = E.list_val(x)
             seqs.append(('seq', sq, None))
@@ -309,10 +353,17 @@ def m_zip(E, a, kw):
         out = []
         for kind, sq, per in seqs:
             if kind == 'cycle':
-                out.append(E.seq_elem_value(sq, z3.simplify(I(i) % per)))
+                out.append(E.seq_elem_value(sq, z3.simplify((per[1] + I(i)) % per[0])))
             else:
                 out.append(E.seq_elem_value(sq, i))
         return VTuple(out)
+    # an iterator that zip() draws from is advanced (zip takes one extra item from iterators listed BEFORE the exhausted one;
+    # cardutil lists the finite sequence first, so exactly n items are taken)
+    for x in cycles:
+        if a.index(x) != 0:
+            E.setf(x, 'pos', VInt(z3.simplify(E.as_int(E.getf(x, 'pos')) + n)))
+        else:
+            E.setf(x, 'pos', VInt(z3.simplify(E.as_int(E.getf(x, 'pos')) + n + 1)))
     cn = conc_int(n)
     if cn is not None and cn <= 4096:
         return seq_items('list', [at(z3.IntVal(k)) for k in range(cn)])
@@ -473,6 +524,8 @@ class VUnknownElem(V):
 def m_sorted(E, a, kw):
     sq = E.list_val(a[0])
     c = sq.clen()
+    if c is None and sq.tag and sq.tag[0] == 'pdskeys':
+        return E.new_list(sq.tag[1]['sorted'])      # sorted() of the keys of a PdsMsg: its ascending key list (contract of sorted)
     if c is None:
         # some permutation of the input: same length, elements uninterpreted (sound for callers that only use it abstractly)
         perm = E.fresh_seq('list', 'sorted_perm')
@@ -820,7 +873,10 @@ def list_comp(E, e, fr, lazy=False):
         raise Unsupported('nested comprehension')
     g = e.generators[0]
     it = E.eval(g.iter, fr)
-    if isinstance(it, VRef) and E.kind_of(it) in ('dict', 'iter') or isinstance(it, VTuple):
+    if isinstance(it, VRef) and E.kind_of(it) == 'dict' and hasattr(E.getf(it, 'val'), 'iter_keys_seq'):
+        sq = E.getf(it, 'val').iter_keys_seq(E)
+        raw = True
+    elif isinstance(it, VRef) and E.kind_of(it) in ('dict', 'iter') or isinstance(it, VTuple):
         items = E.iter_items(it)
         sq = seq_items('list', items)
         raw = True
@@ -899,7 +955,10 @@ def list_comp(E, e, fr, lazy=False):
             return E.eval(e.elt, fr)
         finally:
             _restore(fr, sv)
-    return E.new_list(VSeq('list', sq.n, at))
+    res = VSeq('list', sq.n, at)
+    if isinstance(e.elt, ast.Name) and isinstance(g.target, ast.Name) and e.elt.id == g.target.id:
+        res.tag = sq.tag            # identity comprehension keeps the provenance of the sequence
+    return E.new_list(res)
 
 
 def filtered_seq(cands):
@@ -1072,6 +1131,40 @@ def m_ljust(E, a, kw):
             return fillc
         return ite(c, s.at(i), fillc)
     return VSeq(s.kind, tot, at)
+
+
+def _abstract_strip(E, s, left, right):
+    """strip / lstrip / rstrip: some s[a:b] (which a, b is uninterpreted: a sound over-approximation)"""
+    a = E.fresh_int('strip_lo') if left else z3.IntVal(0)
+    b = E.fresh_int('strip_hi') if right else s.n
+    E.fact(z3.And(a >= 0, a <= b, b <= s.n))
+    return VSeq(s.kind, z3.simplify(b - a), lambda i, s=s, a=a: s.at(z3.simplify(a + I(i))))
+
+
+@method(('str', 'bytes'), 'strip')
+def m_strip(E, a, kw):
+    cs = conc_str(a[0])
+    if cs is not None and len(a) == 1:
+        return lift(cs.strip())
+    return _abstract_strip(E, a[0], True, True)
+
+
+@method(('str', 'bytes'), 'lstrip')
+def m_lstrip(E, a, kw):
+    return _abstract_strip(E, a[0], True, False)
+
+
+@method('bytes', 'rstrip')
+def m_brstrip(E, a, kw):
+    return _abstract_strip(E, a[0], False, True)
+
+
+@model('id')
+def m_id(E, a, kw):
+    v = a[0]
+    if isinstance(v, VRef):
+        return VInt(1000000 + v.oid)
+    raise Unsupported('id() of an immutable value')
 
 
 @method('str', 'join')
